@@ -10,6 +10,7 @@ import time as _time
 from fractions import Fraction
 
 import numpy as np
+import os
 import z3
 
 from . import ops
@@ -569,6 +570,33 @@ def m_time(it, fr):
     return Opaque('time')
 
 
+def m_path_join(it, fr, *parts):
+    it.dropped.add('os.path.join()')
+    return Opaque('path')
+
+
+ARGMIN = z3.Function('argmin', z3.ArraySort(z3.IntSort(), z3.RealSort()), z3.IntSort(), z3.IntSort())
+
+
+def m_np_argmin(it, fr, a):
+    """numpy.argmin of a non-empty 1-d array: the FIRST index of a minimal element.  The result is a function of the (re-based) array and its
+    length, so two calls on equal arrays give the same index; the characterisation is assumed per call (trusted numpy semantics)."""
+    it.trusted_used.add('numpy.argmin = first index of a minimal element')
+    s = ops.to_sseq(a) if not isinstance(a, SSeq) else a
+    if s.ek not in ('real', 'int'):
+        raise Unsupported('argmin of non-numeric array')
+    ops._raise_if(s.n <= 0, 'ValueError')
+    J = z3.Int('j!am')
+    el = z3.Select(s.arr, z3.simplify(s.off + J))
+    arr = ops.LAM(J, z3.ToReal(el) if s.ek == 'int' else el)
+    r = ARGMIN(arr, s.n)
+    at = lambda i: z3.Select(arr, i)
+    it.pc.append(z3.And(r >= 0, r < s.n))
+    it.pc.append(z3.ForAll([J], z3.Implies(z3.And(J >= 0, J < s.n), at(r) <= at(J))))
+    it.pc.append(z3.ForAll([J], z3.Implies(z3.And(J >= 0, J < r), at(J) > at(r))))
+    return ops.mk(r, 'int')
+
+
 def m_product(it, fr, *seqs, repeat=1):
     it.trusted_used.add('itertools.product')
     if is_symbolic(repeat):
@@ -776,6 +804,8 @@ def rand_method(it, fr, base, name, args, kwargs):
     if name == 'random':
         u = it.fresh('u', 'real')
         it.assume(z3.And(u.e >= 0, u.e < 1))
+        if not it.in_spec and len(it.frames) <= 1:
+            it.rand_log.append(u)
         return u
     if name == 'randint':
         a, b = ops.z3int(args[0]), ops.z3int(args[1])
@@ -828,6 +858,6 @@ def build_models():
                  (np.power, m_np_power), (np.mod, m_np_mod), (np.sqrt, m_np_sqrt), (np.exp, m_np_exp),
                  (np.log, m_np_log), (np.array, m_np_array), (np.mean, m_np_mean),
                  (math.log, m_math_log), (math.floor, m_floor), (math.ceil, m_ceil),
-                 (_copy.deepcopy, m_deepcopy), (_time.time, m_time), (itertools.product, m_product), (_random.Random, m_Random)]:
+                 (_copy.deepcopy, m_deepcopy), (_time.time, m_time), (os.path.join, m_path_join), (np.argmin, m_np_argmin), (itertools.product, m_product), (_random.Random, m_Random)]:
         M[f] = m
     return M
